@@ -170,23 +170,31 @@ func (b *combineBuffer) combine() error {
 
 	dimensions := p.Dimensions().ToSet()
 	set := make([]edge.FieldsTagsTimeSetter, l)
-	return b.c.Do(len(b.points), l, func(indices []int) error {
-		valid := true
-		for s := 0; s < l; s++ {
-			found := false
-			for i := range indices {
-				if matches[s][indices[i]] {
-					set[s] = b.points[indices[i]]
-					indices = append(indices[0:i], indices[i+1:]...)
-					found = true
-					break
-				}
+	used := make([]bool, l)
+	// assign gives each expression from s on a point of the combination that it matches, no point twice.
+	// Points are tried in order and a choice is taken back if it leaves a later expression without a point,
+	// so that whether a combination is found does not depend on the order in which its points arrived.
+	var assign func(indices []int, s int) bool
+	assign = func(indices []int, s int) bool {
+		if s == l {
+			return true
+		}
+		for i, idx := range indices {
+			if used[i] || !matches[s][idx] {
+				continue
 			}
-			if !found {
-				valid = false
-				break
+			used[i] = true
+			set[s] = b.points[idx]
+			ok := assign(indices, s+1)
+			used[i] = false
+			if ok {
+				return true
 			}
 		}
+		return false
+	}
+	return b.c.Do(len(b.points), l, func(indices []int) error {
+		valid := assign(indices, 0)
 		if valid {
 			fields, tags, t := b.merge(set, dimensions)
 
